@@ -5,6 +5,7 @@ import (
 	"errors"
 	"fmt"
 	"net"
+	"net/netip"
 	"sort"
 	"strings"
 	"sync"
@@ -56,7 +57,29 @@ func hostOnly(hp string) (host string, comparable bool) {
 	if ip := net.ParseIP(h); ip != nil && (ip.IsLoopback() || ip.IsUnspecified()) {
 		return "", false
 	}
-	return h, true
+	// the same address however it is spelled (case, zero compression, zone kept)
+	if ad, err := netip.ParseAddr(h); err == nil {
+		return ad.String(), true
+	}
+	return strings.ToLower(h), true
+}
+
+// respell writes the host of a host:port differently without changing the address it means (IPv6 literals only).
+func respellHost(hp string, mode int) string {
+	h, port, err := net.SplitHostPort(hp)
+	if err != nil {
+		return hp
+	}
+	ad, err := netip.ParseAddr(h)
+	if err != nil || !ad.Is6() || ad.Zone() != "" {
+		return hp
+	}
+	switch mode {
+	case 0:
+		return net.JoinHostPort(strings.ToUpper(ad.String()), port)
+	default:
+		return net.JoinHostPort(ad.StringExpanded(), port)
+	}
 }
 
 func idOf(x string) string {
@@ -76,12 +99,14 @@ func runC18(s *kernel.Sim) {
 	s.SetYield("eth", 2)
 	s.SetYield("pool", 2)
 	s.IdleSteps = []time.Duration{time.Second, 10 * time.Second, 30 * time.Second}
-	addrs := []string{"198.51.100.1:30303", "198.51.100.2:30303", "198.51.100.2:40404", "[2001:db8::5]:30303", "node.example.org:30303", "127.0.0.1:30303", "[::]:30303", "203.0.113.77:1"}
+	addrs := []string{"198.51.100.1:30303", "198.51.100.2:30303", "198.51.100.2:40404", "[2001:db8::5]:30303", "node.example.org:30303", "127.0.0.1:30303", "[::]:30303", "203.0.113.77:1", "[2001:db8::a:b]:30303", "[fe80::1%eth0]:30303"}
 	universe := make([]agentPeer, 6)
 	for i := range universe {
 		la := addrs[s.Choose("laddr", len(addrs))]
 		pa := la
-		switch s.Choose("paddr", 5) {
+		switch s.Choose("paddr", 7) {
+		case 5, 6: // the same address, spelled the way the host wrote it when it registered
+			pa = respellHost(la, s.Choose("respell", 2))
 		case 0:
 			pa = addrs[s.Choose("paddr2", len(addrs))] // possibly another host
 		case 1:
@@ -89,7 +114,7 @@ func runC18(s *kernel.Sim) {
 				pa = net.JoinHostPort(h, "31313")
 			}
 		}
-		universe[i] = agentPeer{id: hexID(i), localAddr: la, poolURI: "enode://" + hexID(i) + "@" + pa}
+		universe[i] = agentPeer{id: hexID(i), localAddr: la, poolURI: "enode://" + hexID(i) + "@" + strings.Replace(pa, "%", "%25", 1)}
 	}
 	rounds := 1 + s.Choose("rounds", 6)
 	type roundPlan struct {
@@ -133,7 +158,7 @@ func runC18(s *kernel.Sim) {
 		pl.peerFail = []int{0, 0, 0, 0, 1, 2, 3}[s.Choose("peerfail", 7)]
 		pl.forced = r > 0 && s.Choose("forced", 3) == 0
 		if s.Choose("nodefail", 5) == 0 {
-			pl.nodeFail = []string{"RemoveTrustedPeer", "DisconnectPeer"}[s.Choose("nodefailwhat", 2)]
+			pl.nodeFail = []string{"RemoveTrustedPeer", "DisconnectPeer", "ConnectPeer"}[s.Choose("nodefailwhat", 3)]
 			pl.nodeFailK = s.Choose("nodefailk", 3)
 		}
 	}
@@ -159,7 +184,7 @@ func runC18(s *kernel.Sim) {
 				p.Network.RemoteAddress = universe[i].localAddr
 				node.PeerSet = append(node.PeerSet, p)
 			}
-			node.FailNext["RemoveTrustedPeer"], node.FailNext["DisconnectPeer"] = 0, 0
+			node.FailNext["RemoveTrustedPeer"], node.FailNext["DisconnectPeer"], node.FailNext["ConnectPeer"] = 0, 0, 0
 			node.FailAfter = map[string]int{}
 			if pl.nodeFail != "" {
 				node.FailNext[pl.nodeFail] = 1
